@@ -117,7 +117,7 @@ def m_x_Constant(self, st, n, k):
     return k(st, SpecEval(self, st, {}).ev_Constant(n))
 
 
-BUILTIN_NAMES = {'len', 'isinstance', 'getattr', 'setattr', 'hasattr', 'callable', 'bool', 'int',
+BUILTIN_NAMES = {'StructUnpack', 'StructPack', 'StructUnpackFrom', 'len', 'isinstance', 'getattr', 'setattr', 'hasattr', 'callable', 'bool', 'int',
                  'list', 'reversed', 'range', 'sorted', 'zip', 'bytes', 'str', 'repr', 'type',
                  'max', 'min', 'bisect_right', 'bisect_left', 'tuple', 'dict', 'set', 'sum', 'all', 'any',
                  'bin', 'ord', 'breakpoint'}
@@ -195,6 +195,11 @@ def m_x_Attribute(self, st, n, k):
             if n.attr in ('get_fields', 'get_sync_before_pack_methods', 'get_sync_after_unpack_methods') \
                     and self.is_subclass(base.cls, 'Packet'):
                 return k(st, VFunc('tablefn', n.attr, self.class_of(base.z)))
+            if base.cls == 'Packet' and not n.attr.startswith('__'):
+                # a field value of a packet instance: a slot
+                nm = z3.StringVal(n.attr)
+                return self.with_raises(st, [(z3.Not(self.slot_has(st, base.z, nm)), 'AttributeError')],
+                                        lambda st: k(st, VDyn(self.slot_get(st, base.z, nm))))
             raise Untranslated('attribute %s of %s' % (n.attr, base.cls))
         if isinstance(base, VClassSym):
             if n.attr == '__name__':
@@ -503,12 +508,24 @@ def m_call(self, st, f, pos, kws, kwstar, starv, k, node=None):
         return self.call_bound(st, f.payload[0], f.payload[1], pos, kws, k)
     if f.tag == 'class':
         return self.call_class(st, f.payload[0], pos, kws, kwstar, k)
+    if f.tag == 'contract' and getattr(self, 'tv_mode', False) and \
+            f.payload[0] in ('fragments:Fragments.append', 'fragments:Fragments.insert'):
+        frag = f.payload[1]
+        if f.payload[0].endswith('append'):
+            return self.tv_frag_insert(st, frag, VInt(z3.Select(st.heap['Fragments.current_offset'], frag.z)), pos[0], k)
+        return self.tv_frag_insert(st, frag, pos[0], pos[1], k)
     if f.tag == 'contract':
         c = self.contracts[f.payload[0]]
         selfv = f.payload[1]
+        if getattr(self, 'tv_mode', False) and c.name in self.tv_inline:
+            return self.call_inline(st, c, ([selfv] if selfv is not None else []) + pos, kws, kwstar, k)
         return self.call_contract(st, c, ([selfv] if selfv is not None else []) + pos, kws, kwstar, k)
     if f.tag == 'role':
         return self.call_role(st, f, pos, kws, kwstar, k)
+    if f.tag == 'tablefn' and getattr(self, 'tv_mode', False):
+        return k(st, self.tv_tables[f.payload[0]])
+    if f.tag == 'detrole':
+        return self.call_detrole(st, f.payload[0], f.payload[1], pos, kws, kwstar, k)
     if f.tag == 'tablefn':
         name, clsid = f.payload
         if name == 'get_fields':
@@ -535,6 +552,124 @@ def m_call(self, st, f, pos, kws, kwstar, starv, k, node=None):
             self.add_obligation(rest, 'pre@call', 'method attribute %s is one of its candidates' % attr, z3.BoolVal(False), '')
         return
     raise Untranslated('call of %r' % (f,))
+
+
+def m_call_inline(self, st, c, pos, kws, kwstar, k):
+    """execute the real body of the callee in place (its locals are a fresh frame)"""
+    node, seg, sha = find_function(c.target)
+    self.tv_sources[c.target] = sha
+    env = self.bind_args(c, pos, kws, kwstar)
+    saved_loc, saved_ctx = st.loc, st.ctx
+    st.loc = dict(env)
+    outer = saved_ctx
+
+    def restore(st2):
+        st2.loc = dict(saved_loc)
+        st2.ctx = outer
+
+    def on_return(st2, v):
+        restore(st2)
+        return k(st2, v)
+
+    def on_raise(st2, exc):
+        restore(st2)
+        return outer.on_raise(st2, exc)
+    st.ctx = Ctx(on_return, on_raise)
+    body = strip_docstring(node.body)
+    first = node.lineno
+    ifc = 0
+    for sub in ast.walk(node):
+        if isinstance(sub, ast.If):
+            sub.lineno_rel = ifc
+            ifc += 1
+    return self.exec_block(st, body, lambda st2: on_return(st2, VNone()))
+
+
+def m_tv_frag_insert(self, st, frag, position, string, k):
+    """Fragments.insert in translation-validation mode: the buffer is the sparse byte array of its
+    contract (C11): raise iff a byte of the range is occupied, else store exactly those bytes."""
+    pos, c1 = self.as_int(position)
+    sb, c2 = self.as_bytes(string)
+    if z3.is_app(sb) and sb.decl().name() == 'bconcat' and is_false(z3.Or(c1, c2)):
+        # storing x ++ y at p is storing x at p and y at p + |x| (same final view, raises iff either does):
+        # keeps the buffer terms of vectorised and per-field code syntactically aligned
+        x, y = sb.children()
+
+        def blen_x(t):      # |x ++ y| = |x| + |y|, structurally (keeps positions syntactically aligned)
+            if z3.is_app(t) and t.decl().name() == 'bconcat':
+                return blen_x(t.children()[0]) + blen_x(t.children()[1])
+            return T.blen(t)
+        return self.tv_frag_insert(st, frag, VInt(pos), VBytes(x),
+                                   lambda st, _: self.tv_frag_insert(st, frag, VInt(pos + blen_x(x)), VBytes(y), k))
+    L = T.blen(sb)
+    occ = z3.Select(st.heap['Fragments.occ'], frag.z)
+    byt = z3.Select(st.heap['Fragments.byt'], frag.z)
+    ext = z3.Select(st.heap['Fragments.extent'], frag.z)
+    p = z3.Int('p!fi')
+    collide = z3.Exists([p], z3.And(pos <= p, p < pos + L, z3.Select(occ, p)))
+    self.used_assumptions.add('Fragments behaves as the sparse byte array of its contract (C11)')
+
+    def cont(st):
+        inr = z3.And(pos <= p, p < pos + L)
+        st.heap['Fragments.occ'] = z3.Store(st.heap['Fragments.occ'], frag.z, z3.Lambda([p], z3.If(inr, True, z3.Select(occ, p))))
+        st.heap['Fragments.byt'] = z3.Store(st.heap['Fragments.byt'], frag.z,
+                                            z3.Lambda([p], z3.If(inr, T.bat(sb, p - pos), z3.Select(byt, p))))
+        st.heap['Fragments.current_offset'] = z3.Store(st.heap['Fragments.current_offset'], frag.z, pos + L)
+        st.heap['Fragments.extent'] = z3.Store(st.heap['Fragments.extent'], frag.z, z3.If(pos + L > ext, pos + L, ext))
+        return k(st, VNone())
+    return self.with_raises(st, [(z3.Or(c1, c2), 'TypeError'), (collide, 'Exception')], cont)
+
+
+DET_COMPS = ['slots', 'has', 'llen', 'lat', 'next', 'Fragments.fragments#has', 'Fragments.fragments#val',
+             'Fragments.current_offset', 'Fragments.begin_of_fragments', 'Fragments.ghost_idx#has', 'Fragments.ghost_idx#val']
+
+
+def m_call_detrole(self, st, role, fid, pos, kws, kwstar, k):
+    """A table entry that is not modelled concretely (variable field, sync hook): its effect is a
+    DETERMINISTIC uninterpreted function of (the callable, the packet heap, the buffer, the arguments).
+    Two programs that call it with equal inputs therefore observe equal results - exactly what the
+    equivalence of generated and generic code needs."""
+    args = list(pos) + [kws[kk] for kk in sorted(kws)] + ([kwstar] if kwstar is not None else [])
+    argz = []
+    for a in args:
+        argz.append(a.z)
+    ins = [fid] + [st.heap[c] for c in DET_COMPS] + argz
+    sorts = [x.sort() for x in ins]
+    tag = '%s_%s' % (role.replace('.', '_'), '_'.join(sorted(kws)))
+
+    def fn(out, sort):
+        return z3.Function('det_%s_%s' % (tag, out), *(sorts + [sort]))(*ins)
+    r_pe = fn('raises_pe', T.B)
+    r_other = fn('raises_other', T.B)
+    post = {c: fn('post_' + c.replace('.', '_').replace('#', '_'), st.heap[c].sort()) for c in DET_COMPS}
+    # PacketError raised by a nested packet
+    s1 = st.fork('det:%s!PacketError' % role)
+    s1.assume(r_pe)
+    for c in DET_COMPS:
+        s1.heap[c] = fn('pe_' + c.replace('.', '_').replace('#', '_'), st.heap[c].sort())
+    exc = VExc('PacketError', ref=fn('excref', T.I), eid=fresh('eid', T.I))
+    self.do_raise(s1, exc)
+    s2 = st.fork('det:%s!Other' % role)
+    s2.assume(z3.And(z3.Not(r_pe), r_other))
+    for c in DET_COMPS:
+        s2.heap[c] = fn('oe_' + c.replace('.', '_').replace('#', '_'), st.heap[c].sort())
+    self.do_raise(s2, VExc('OtherException*', eid=fn('eid', T.I), msg='det'))
+    st.assume(z3.And(z3.Not(r_pe), z3.Not(r_other)))
+    old_slots, old_has = st.heap['slots'], st.heap['has']
+    for c in DET_COMPS:
+        st.heap[c] = post[c]
+    # WFClass (slot sets of distinct table entries are disjoint) + purity of pack (C13): an abstract
+    # entry does not write the value slots of the concretely modelled fixed fields of the same packet
+    pk = kws.get('pkt', pos[0] if pos else None)
+    if pk is not None and role.startswith('FIELD'):
+        for nm in getattr(self, 'tv_fixed_names', []):
+            n_ = z3.StringVal(nm)
+            st.assume(z3.Select(z3.Select(st.heap['slots'], pk.z), n_) == z3.Select(z3.Select(old_slots, pk.z), n_))
+            st.assume(z3.Select(z3.Select(st.heap['has'], pk.z), n_) == z3.Select(z3.Select(old_has, pk.z), n_))
+    res = fn('result', T.I)
+    if role.endswith('unpack'):
+        return k(st, VInt(res))
+    return k(st, VDyn(T.Val.VI(res)))
 
 
 def m_bind_args(self, c, pos, kws, kwstar):
@@ -1155,6 +1290,103 @@ def m_bi_struct_Struct(self, st, pos, kws, k):
     raise Untranslated('struct format %r' % f)
 
 
+def struct_codes(fmt):
+    import re as _re
+    big = fmt[0] == '>'
+    out = []
+    for cnt, code in _re.findall(r'(\d*)([a-zA-Z])', fmt[1:]):
+        if code == 's':
+            out.append(('s', int(cnt or 1), False))
+        else:
+            for _ in range(int(cnt or 1)):
+                out.append((code, {'b': 1, 'h': 2, 'i': 4, 'q': 8}[code.lower()], code.islower()))
+    return big, out
+
+
+def m_bi_StructUnpack(self, st, pos, kws, k):
+    """struct.unpack(fmt, buf) for a literal standard-size format ('<'/'>' + B H I Q b h i q / Ns):
+    struct.error unless len(buf) == calcsize; one value per code from consecutive sub-slices (assumed
+    library contract, the multi-code form of the single-code contract used for Int; cross-checked)."""
+    fmt, buf = pos
+    if not (isinstance(fmt, VStr) and fmt.py is not None and fmt.py[0] in '<>'):
+        raise Untranslated('StructUnpack with a non-literal format')
+    big, codes = struct_codes(fmt.py)
+    b, cb = self.as_bytes(buf)
+    total = sum(sz for _, sz, _ in codes)
+    self.used_assumptions.add('struct.pack/unpack with literal multi-code standard-size formats (assumed, cross-checked)')
+    vals, off = [], 0
+    for code, sz, sg in codes:
+        part = T.bslice(b, z3.IntVal(off), z3.IntVal(off + sz))
+        if code == 's':
+            vals.append(VBytes(part))
+        else:
+            vals.append(VInt(T.bval(part, z3.BoolVal(big), z3.BoolVal(sg))))
+        off += sz
+    if 'intbytes' not in self.axiom_sets:
+        self.axiom_sets.append('intbytes')
+    return self.with_raises(st, [(cb, 'TypeError'), (T.blen(b) != total, 'StructError')], lambda st: k(st, VTuple(vals)))
+
+
+def m_bi_StructUnpackFrom(self, st, pos, kws, k):
+    """struct.unpack_from(fmt, buf, offset): a negative offset counts from the end; struct.error when the
+    offset is out of range or fewer than calcsize bytes remain (assumed library contract)"""
+    fmt, buf = pos[0], pos[1]
+    off = pos[2] if len(pos) > 2 else kws.get('offset', VInt(0))
+    if not (isinstance(fmt, VStr) and fmt.py is not None and fmt.py[0] in '<>'):
+        raise Untranslated('StructUnpackFrom with a non-literal format')
+    big, codes = struct_codes(fmt.py)
+    b, cb = self.as_bytes(buf)
+    o, co = self.as_int(off)
+    n = T.blen(b)
+    total = sum(sz for _, sz, _ in codes)
+    o1 = z3.If(o < 0, o + n, o)
+    bad = z3.Or(z3.And(o < 0, o + n < 0), n - o1 < total)
+    vals, acc = [], 0
+    for code, sz, sg in codes:
+        part = T.bslice(b, o1 + acc, o1 + acc + sz)
+        vals.append(VBytes(part) if code == 's' else VInt(T.bval(part, z3.BoolVal(big), z3.BoolVal(sg))))
+        acc += sz
+    if 'intbytes' not in self.axiom_sets:
+        self.axiom_sets.append('intbytes')
+    self.used_assumptions.add('struct.unpack_from semantics (assumed)')
+    return self.with_raises(st, [(z3.Or(cb, co), 'TypeError'), (bad, 'StructError')], lambda st: k(st, VTuple(vals)))
+
+
+def m_bi_StructPack(self, st, pos, kws, k):
+    fmt = pos[0]
+    if not (isinstance(fmt, VStr) and fmt.py is not None and fmt.py[0] in '<>'):
+        raise Untranslated('StructPack with a non-literal format')
+    big, codes = struct_codes(fmt.py)
+    if len(codes) != len(pos) - 1:
+        return self.do_raise(st, VExc('StructError'))
+    self.used_assumptions.add('struct.pack/unpack with literal multi-code standard-size formats (assumed, cross-checked)')
+    raises, parts = [], []
+    for (code, sz, sg), v in zip(codes, pos[1:]):
+        if code == 's':
+            bz, c = self.as_bytes(v)
+            raises.append((c, 'StructError'))
+            # NB: struct pads / truncates a bytes value to the declared size
+            fit = z3.Function('struct_fit', T.Bytes, T.I, T.Bytes)(bz, z3.IntVal(sz))
+            self.extra_hyps.append(T.blen(fit) == sz)
+            chk = st.fork()
+            chk.assume(z3.Not(c))
+            if not self.feasible(chk, T.blen(bz) != sz):
+                parts.append(bz)        # a value of exactly the declared size is packed as it is
+            else:
+                parts.append(z3.If(T.blen(bz) == sz, bz, fit))
+        else:
+            x, c = self.as_int(v)
+            lo, hi = lo_hi(z3.IntVal(sz), z3.BoolVal(sg))
+            raises.append((z3.Or(c, x < lo, x > hi), 'StructError'))
+            parts.append(T.bofint(x, z3.IntVal(sz), z3.BoolVal(big), z3.BoolVal(sg)))
+    res = parts[0]
+    for p_ in parts[1:]:
+        res = T.bconcat(res, p_)
+    if 'intbytes' not in self.axiom_sets:
+        self.axiom_sets.append('intbytes')
+    return self.with_raises(st, raises, lambda st: k(st, VBytes(res)))
+
+
 def m_bi_list(self, st, pos, kws, k):
     if not pos:
         return k(st, self.new_list(st))
@@ -1758,6 +1990,9 @@ def m_assign(self, st, target, v, k):
         def got(st, base):
             if isinstance(base, VRef):
                 owner, kind = self.attr_kind(base.cls, target.attr)
+                if kind is None and base.cls == 'Packet':
+                    self.slot_set(st, base.z, z3.StringVal(target.attr), to_val(v))
+                    return k(st)
                 if kind is None:
                     raise Untranslated('assignment to unknown attribute %s.%s' % (base.cls, target.attr))
                 self.write_attr(st, base, target.attr, v)
@@ -2063,9 +2298,32 @@ def m_loop_back_edge(self, st, idx, spec, it1, inv_env, entry):
     self.check_frame(st, entry, self.loop_frame_contract, 'loop%d frame' % idx)
 
 
+def m_unroll_for(self, st, s, items, k):
+    """a loop over a concrete tuple is executed item by item (translation validation mode)"""
+    outer = st.ctx
+
+    def go(st, i):
+        st.ctx = outer
+        if i == len(items):
+            return k(st)
+
+        def on_break(st2):
+            st2.ctx = outer
+            return k(st2)
+        st.ctx = wrap_ctx(outer, on_break=on_break, on_continue=lambda st2: go(st2, i + 1))
+        return self.assign(st, s.target, items[i], lambda st2: self.exec_block(st2, s.body, lambda st3: go(st3, i + 1)))
+    return go(st, 0)
+
+
 def m_s_For(self, st, s, k):
     if s.orelse:
         raise Untranslated('for/else')
+    if getattr(self, 'tv_mode', False):
+        def got_tv(st, seq):
+            if isinstance(seq, VTuple):
+                return self.unroll_for(st, s, seq.items, k)
+            raise Untranslated('translation validation: loop over %s' % seq.kind)
+        return self.ev(st, s.iter, got_tv)
     idx, spec = self.loop_spec(s)
 
     def got_iter(st, seq):
@@ -2186,7 +2444,7 @@ def m_listcomp_effect(self, st, n, k):
     loop = ast.For(target=g.target, iter=g.iter, body=[ast.Expr(value=n.elt)], orelse=[])
     ast.copy_location(loop, n)
     ast.fix_missing_locations(loop)
-    self.loop_ordinals[id(loop)] = self.listcomp_ordinals[id(n)]
+    self.loop_ordinals[id(loop)] = self.listcomp_ordinals.get(id(n), -1)
     return self.s_For(st, loop, k)
 
 
